@@ -80,6 +80,41 @@ pub fn gen_crash(property: &str, profile: &str, seed: u64) -> Plan {
     plan
 }
 
+/// Concurrent clients cut by a process kill, then the sequential recovery sessions of `gen_crash`
+/// (C06: several operations are in flight at the crash; with closures on their own threads the kill
+/// can land between the I/O calls of two overlapping closures).
+pub fn gen_crash_conc(property: &str, profile: &str, seed: u64) -> Plan {
+    let mut plan = crate::gen3::gen_conc(property, profile, seed);
+    let mut sw = Swarm { rng: Rng::new(seed ^ 0xC0C0_C4A5_0001), next_uid: 100_000, n_keys: plan.n_keys, n_metas: 0, ts_max: 8, big_values: false };
+    plan.sessions.truncate(1);
+    plan.sessions[0].end = SessionEnd::Killed;
+    plan.store.ignore_corrupted = sw.rng.chance(1, 6);
+    plan.sched.preempt_jobs = sw.rng.chance(1, 2);
+    if plan.sched.preempt_jobs {
+        plan.sched.inplace_small = false;
+    }
+    let mut ops1 = Vec::new();
+    for _ in 0..sw.rng.range(2, 8) {
+        ops1.push(gen_op(&mut sw, &MIX_AFTER, plan.store.key_len));
+    }
+    let s1 = SessionPlan::sequential(ops1);
+    let mut ops2 = Vec::new();
+    for _ in 0..sw.rng.range(1, 5) {
+        ops2.push(gen_op(&mut sw, &MIX_AFTER, plan.store.key_len));
+    }
+    let uid = sw.uid();
+    ops2.push(Op { uid, think_ms: 0, kind: OpKind::Restart { lazy: sw.rng.chance(1, 2), damage: if sw.rng.chance(1, 2) { vec![AtRest::IndexRemove { blob: sw.rng.below(6) as usize }] } else { vec![] } } });
+    let s2 = SessionPlan::sequential(ops2);
+    plan.sessions.push(s1);
+    plan.sessions.push(s2);
+    let m = mutating_events(&plan).max(1);
+    // the second half of the session has more operations in flight
+    let e = if sw.rng.chance(1, 2) { sw.rng.below(m) } else { m / 2 + sw.rng.below(m - m / 2) };
+    let keep = *sw.rng.pick(&kill_keeps(plan.store.key_len));
+    plan.faults = vec![FaultSpec { session: 0, sel: Sel::Global { n: e }, action: FaultAction::Kill { keep } }];
+    plan
+}
+
 /// Histories with injected I/O failures (C11).
 pub fn gen_iofault(property: &str, profile: &str, seed: u64) -> Plan {
     let (mut plan, mut sw) = base_plan(property, profile, seed);
@@ -318,7 +353,9 @@ fn sample<T>(mut v: Vec<T>, cap: usize, rng: &mut Rng) -> Vec<T> {
 
 pub fn gen_plan2(property: &str, profile: &str, seed: u64) -> Plan {
     let base = profile.split('+').next().unwrap_or(profile);
-    if base.starts_with("crash") {
+    if base == "crash-conc" {
+        gen_crash_conc(property, profile, seed)
+    } else if base.starts_with("crash") {
         gen_crash(property, profile, seed)
     } else if base.starts_with("iofault") {
         gen_iofault(property, profile, seed)
